@@ -14,12 +14,12 @@ RULE = (
     'call / late callback delivered after termination; distinct = SHA-1 of the case JSON'
 )
 ASSUMPTIONS = [
-    'lifecycle hooks do not raise (quantifier of C01; C03 covers raising hooks)',
+    'lifecycle hooks do not raise (quantifier of C01; C03 covers raising hooks); they may issue control calls themselves',
     'transitions are observed through ENTERED_STATE callbacks while the process is open and through state sampling after every loop callback afterwards',
 ]
 BUDGET = {
-    'quick': {'enum': ['k1', 'k2'], 'hyp': 3000, 'shards': 8},
-    'thorough': {'enum': ['k1', 'k2', 'k3'], 'hyp': 160000, 'shards': 16},
+    'quick': {'enum': ['k1', 'k2', 'hooks'], 'hyp': 4000, 'shards': 8},
+    'thorough': {'enum': ['k1', 'k2', 'k3', 'hooks'], 'hyp': 160000, 'shards': 16},
 }
 
 ALPHABET = [['pause', 'p'], ['play'], ['kill', 'kt'], ['resume', 1], ['fail', 'f']]
@@ -42,6 +42,15 @@ LATE3 = {'steps': [gen.S([['soon', 'raise', 'l3']], ['wait', 1, None, None]), ge
 
 
 def enumerate_cases(tier, scope):
+    if scope == 'hooks':
+        for name in ('wait1', 'chain', 'async2', 'selfkill', 'failing', 'sync3'):
+            for hook in gen.HOOK_SITES:
+                for occ in (1, 2):
+                    for pos in ('pre', 'post'):
+                        for do in (['kill', 'hk'], ['pause', 'hp'], ['fail', 'hf'], ['play', None]):
+                            for sched in ([], [['tick', 1], ['pause', 'p']], [['tick', 2], ['kill', 'k']]):
+                                yield {'program': gen.CATALOGUE[name], 'schedule': sched, 'hooks': [{'hook': hook, 'occ': occ, 'pos': pos, 'do': do}]}
+        return
     k = int(scope[1])
     max_gap = {1: 8, 2: 5, 3: 3}[k]
     progs = {name: gen.CATALOGUE[name] for name in ('async2', 'wait1', 'chain', 'waitwait', 'failing', 'selfkill')}
@@ -55,7 +64,10 @@ def enumerate_cases(tier, scope):
 def _cases(draw, tier):
     prog = draw(gen.programs(max_steps=4 if tier == 'quick' else 6, self_calls=(), soon=True))
     sched = draw(gen.control_schedules(['pause', 'play', 'kill', 'resume', 'fail', 'open'], max_events=4, max_gap=4))
-    return {'program': prog, 'schedule': sched}
+    case = {'program': prog, 'schedule': sched}
+    if draw(st.integers(0, 2)) == 0:
+        case['hooks'] = draw(gen.hook_plans(['kill', 'pause', 'play', 'fail']))
+    return case
 
 
 def strategy(tier):
@@ -92,6 +104,16 @@ def execute(case):
             if to not in GRAPH.get(frm, set()):
                 v('illegal-transition', f'{frm}->{to}')
             prev_to = to
+        # the sampled state always is the state that was announced last: a change that bypasses the announcement
+        # (e.g. after close(), when the callbacks are gone) is a change of a terminal state within one loop callback
+        for i, smp in enumerate(ex.samples):
+            announced = 'created'
+            for _frm, to, idx in ex.transitions:
+                if idx <= i:
+                    announced = to
+            if smp[1] != announced:
+                v('state-not-announced', f'sample {i} ({smp[0]}): state is {smp[1]} but the last announced transition entered {announced}')
+                break
         # sampled states: reachable along the graph; terminal is final
         terminal_seen = None
         was_terminated = False
@@ -117,7 +139,9 @@ def execute(case):
             classes.append('still-live')
 
         recs = ex.world.futs
-        inflight = [r for r in recs if r['who'] == 'ext' and r.get('phase') in ('in_step', 'waiting')]
+        inflight = [r for r in recs if (r['who'] == 'ext' and r.get('phase') in ('in_step', 'waiting')) or r['who'].startswith('hook:')]
+        if any(r['who'].startswith('hook:') for r in recs):
+            classes.append('request-from-hook')
         post = [r for r in recs if not r['live_before']]
         late_cbs = [e for e in ex.world.trace.get(ex.proc.pid, []) if e['k'] == 'cb' and e['state'] in TERMINAL]
         if inflight:
